@@ -138,10 +138,13 @@ def stepBase (st : St) (op : String) : St :=
   | ["M"] =>
     let sm := (st.store.map (·.1)).eraseDups.map showBytes
     st.emit (join (st.tree.methods.map showBytes) "+") (join (sortStrings sm) "+")
-  | ["P", m, pre] =>
+  | ["P", ms, pre] =>
+    -- `Iter.Prefix(methods, prefix)`: the methods in the given order (repetitions included), each with its routes
     let p := fromHex! pre
-    let items := (st.tree.prefix (ascii m) p).map fun r => toHex r.text
-    let sitems := ((st.store.routesOf (ascii m)).filter fun r => p.isPrefixOf r.text).map fun r => toHex r.text
+    let methods := (splitNonEmpty ms "+").map ascii
+    let items := methods.flatMap fun m => (st.tree.prefix m p).map fun r => showBytes m ++ ":" ++ toHex r.text
+    let sitems := methods.flatMap fun m =>
+      ((st.store.routesOf m).filter fun r => p.isPrefixOf r.text).map fun r => showBytes m ++ ":" ++ toHex r.text
     st.emit (join items "+") (join (sortStrings sitems) "+")
   | ["X"] => st.emit (dumpRoots st.tree.roots ++ " size=" ++ toString st.tree.size ++ " mp=" ++ toString st.tree.maxParams ++ " depth=" ++ toString st.tree.depth) "-"
   | _ => st.emit "bad-op" "bad-op"
